@@ -148,7 +148,7 @@ func (t *c20Track) slice(s ssa.Value, ctx *symCtx, frames []c20Frame, depth int)
 			}
 		case *ssa.Call:
 			if b, ok := x.Call.Value.(*ssa.Builtin); ok {
-				switch b.Name() {
+				switch nm(b) {
 				case "len", "cap":
 				case "append":
 					t.fail(x.Pos(), "the built nodes are appended as a whole, without the filter test")
@@ -233,7 +233,7 @@ func (t *c20Track) elem(e ssa.Value, from ssa.Value, ctx *symCtx, frames []c20Fr
 					if sl, ok := r2.(*ssa.Slice); ok {
 						for _, r3 := range *sl.Referrers() {
 							if c, ok := r3.(*ssa.Call); ok {
-								if b, ok := c.Call.Value.(*ssa.Builtin); ok && b.Name() == "append" {
+								if b, ok := c.Call.Value.(*ssa.Builtin); ok && nm(b) == "append" {
 									app = c
 								}
 							}
@@ -343,7 +343,7 @@ func c20Combinators(w *World, r *Report) {
 	fc := sym.ResultCond(isConfig, nil)
 	okC := false
 	if as := fc.atoms(); len(as) == 1 && fc.k == pcAtomK {
-		if c, ok := as[0].v.(*ssa.Call); ok && c.Call.IsInvoke() && c.Call.Method.Name() == "Config" && c.Call.Value == ssa.Value(isConfig.Params[0]) {
+		if c, ok := as[0].v.(*ssa.Call); ok && c.Call.IsInvoke() && nm(c.Call.Method) == "Config" && c.Call.Value == ssa.Value(isConfig.Params[0]) {
 			okC = true
 		}
 	}
